@@ -88,6 +88,11 @@ func cmdCheck(args []string) int {
 		fmt.Fprintln(os.Stderr, "govc check: -property required")
 		return 2
 	}
+	if o.prop == "ANY" && !o.scratch {
+		// every contract, whatever property it is claimed for: a development aid, never an evidence-writing check
+		fmt.Fprintln(os.Stderr, "govc check: -property ANY needs -scratch")
+		return 2
+	}
 	t0 := time.Now()
 	seed := 0
 	if s := os.Getenv("VERIF_SEED"); s != "" {
@@ -118,7 +123,7 @@ func cmdCheck(args []string) int {
 		for _, ob := range r.Obls {
 			// an obligation without any property attribution belongs to every property whose check reaches its function:
 			// nothing generated is ever dropped silently
-			if ob.Kind == "cover" || len(ob.Props) == 0 || hasProp(ob.Props, o.prop) {
+			if ob.Kind == "cover" || len(ob.Props) == 0 || hasProp(ob.Props, o.prop) || o.prop == "ANY" {
 				all = append(all, ob)
 			}
 		}
